@@ -205,6 +205,15 @@ def run(db, rep, feat, tier):
                    "Mipsel": "translator::mips::Mipsel::new", "Ppc": "translator::ppc::Ppc::new",
                    "AArch64": "translator::aarch64::AArch64::new", "AArch64Eb": "translator::aarch64::AArch64Eb::new"}[arch]
         r3.decide(tr == want_tr, "%s|translator" % arch, w, "translator %s, expected %s" % (tr, want_tr))
+        # a boxed clone is a copy of the same descriptor: box_clone derives its value from self and constructs no other type
+        if "box_clone" in fs:
+            bc = fs["box_clone"]
+            clones_self = any(x.get("k") == "MethodCall" and x.get("name") == "clone" and any(
+                y.get("k") == "Path" and y.get("res", {}).get("local") == "self" for y in walk(x["recv"])) for x in walk(bc["body"]))
+            others = [callee(x) for x in walk(bc["body"]) if (callee(x) or "").startswith("architecture::") and last_seg(callee(x) or "") == "new"]
+            r3.decide(clones_self and not [o for o in others if not o.startswith("architecture::%s::" % arch)], "%s|box_clone" % arch, db.where(bc),
+                      "box_clone of %s does not copy itself (constructs %s): the clone reports another architecture's name, endianness "
+                      "and translator" % (arch, others))
         # the Endian literal the translator impl passes on
         timpl = [k for k in db.hir.keys() if k.startswith("<%s as translator::Translator>::translate_block" % want_tr[:-5])]
         if timpl:
@@ -221,6 +230,16 @@ def run(db, rep, feat, tier):
                 r3.open("%s|translator_endian" % arch, db.where(db.hir[timpl[0]]), "no Endian literal found")
     r4(db, rep)
     r5(db, rep)
+    # the scalar universe of the x86 lifters is computed from their register tables: the tables must be exact (C01.R1)
+    import props.c01 as c01
+    before = len(rep.rules)
+    c01.r1(db, rep)
+    for rr in rep.rules[before:]:
+        rr.id = "R6." + rr.id
+        rr.floors = []
+        for i in rr.instances:
+            i["key"] = "R6." + i["key"]
+            i["rule"] = rr.id
     r.floor(40, "6 conventions x 7 clauses")
     r2.floor(150, "registers listed by the conventions of the seven architectures")
     r3.floor(40, "7 architectures x 6+ clauses")
